@@ -35,7 +35,14 @@ const (
 	tBytes // []byte
 	tErr
 	tStr // string (Bytes in Lean; never nil)
+	tOpaque // a pointer to a struct in a result position: only nil / non-nil is tracked (Bool)
 )
+
+// structField: one field of a struct type declared in the translated file.
+type structField struct {
+	name string
+	ty   trType
+}
 
 type translator struct {
 	consts   map[string]int
@@ -45,9 +52,64 @@ type translator struct {
 	resNames []string        // named results ("" when unnamed)
 	initVars map[string]bool // variables introduced by the init statement of an if / switch (dead after it)
 	err      string
+	// methods and struct parameters: `x.F` for a receiver / pointer parameter x is the variable x_F
+	structs    map[string][]structField // struct types of the file (fields of the subset's types only)
+	structVars map[string]string        // receiver / parameter name -> struct type name
+	arrays     map[string]int           // `parts := make([]string, N)`: parts[k] is the variable parts_k
+	outs       []string                 // receiver fields the body assigns: appended to every result tuple
+	usesEnc    bool                     // the body calls encodeLengthEncodedStrings(writer, parts)
+	usesDec    bool                     // the body calls decodeLengthEncodedStrings(reader, parts)
 }
 
-var leanTy = map[trType]string{tNat: "Int", tBool: "Bool", tBytes: "Bytes", tErr: "Bool", tStr: "Bytes"}
+// lvalue: the variable an assignable expression of the subset denotes (identifier, field of the
+// receiver or of a struct parameter, constant index into a `make`d string array).
+func (t *translator) lvalue(e ast.Expr) (string, bool) {
+	switch x := e.(type) {
+	case *ast.ParenExpr:
+		return t.lvalue(x.X)
+	case *ast.Ident:
+		if _, ok := t.vars[x.Name]; ok {
+			return x.Name, true
+		}
+	case *ast.SelectorExpr:
+		if id, ok := x.X.(*ast.Ident); ok {
+			if _, ok := t.structVars[id.Name]; ok {
+				n := id.Name + "_" + x.Sel.Name
+				if _, ok := t.vars[n]; ok {
+					return n, true
+				}
+			}
+		}
+	case *ast.IndexExpr:
+		if id, ok := x.X.(*ast.Ident); ok {
+			if size, ok := t.arrays[id.Name]; ok {
+				if k, ok := litInt(x.Index); ok && k >= 0 && k < size {
+					return fmt.Sprintf("%s_%d", id.Name, k), true
+				}
+			}
+		}
+	}
+	return "", false
+}
+
+// partsList: the Lean list of the slots of a `make`d string array.
+func (t *translator) partsList(e ast.Expr) (string, int, bool) {
+	id, ok := e.(*ast.Ident)
+	if !ok {
+		return "", 0, false
+	}
+	size, ok := t.arrays[id.Name]
+	if !ok {
+		return "", 0, false
+	}
+	var el []string
+	for k := 0; k < size; k++ {
+		el = append(el, fmt.Sprintf("%s_%d", id.Name, k))
+	}
+	return "[" + strings.Join(el, ", ") + "]", size, true
+}
+
+var leanTy = map[trType]string{tNat: "Int", tBool: "Bool", tBytes: "Bytes", tErr: "Bool", tStr: "Bytes", tOpaque: "Bool"}
 
 // library calls of the subset: package.selector -> (lean function of the prelude, argument types, result type)
 var libCalls = map[string]struct {
@@ -96,11 +158,18 @@ func (t *translator) typeOf(e ast.Expr) trType {
 		}
 	case *ast.SliceExpr:
 		return t.typeOf(x.X)
+	case *ast.SelectorExpr, *ast.IndexExpr:
+		if n, ok := t.lvalue(e); ok {
+			return t.vars[n]
+		}
 	case *ast.UnaryExpr:
 		if x.Op == token.NOT {
 			return tBool
 		}
 	case *ast.BinaryExpr:
+		if x.Op == token.ADD && (isBytesLike(t.typeOf(x.X)) || isBytesLike(t.typeOf(x.Y))) {
+			return tStr
+		}
 		switch x.Op {
 		case token.LAND, token.LOR, token.LSS, token.LEQ, token.GTR, token.GEQ, token.EQL, token.NEQ:
 			return tBool
@@ -120,7 +189,7 @@ func goType(e ast.Expr) (trType, bool) {
 	switch x := e.(type) {
 	case *ast.Ident:
 		switch x.Name {
-		case "int", "uint", "uint16", "uint64":
+		case "int", "uint", "uint8", "uint16", "uint32", "uint64":
 			return tNat, true
 		case "bool":
 			return tBool, true
@@ -177,7 +246,7 @@ func (t *translator) expr(e ast.Expr, want trType) string {
 			return leanBytes(s)
 		}
 	case *ast.Ident:
-		if x.Name == "nil" && want == tErr {
+		if x.Name == "nil" && (want == tErr || want == tOpaque) {
 			return "false"
 		}
 		if x.Name == "true" || x.Name == "false" {
@@ -198,7 +267,23 @@ func (t *translator) expr(e ast.Expr, want trType) string {
 		if v, ok := t.consts[x.Name]; ok && want == tNat {
 			return fmt.Sprintf("(%d : Int)", v)
 		}
+	case *ast.SelectorExpr, *ast.IndexExpr:
+		if n, ok := t.lvalue(e); ok {
+			ty := t.vars[n]
+			if ty != want && !(isBytesLike(ty) && isBytesLike(want)) {
+				return t.fail("%s used at another type", n)
+			}
+			return leanIdent(n)
+		}
 	case *ast.CallExpr:
+		if c, ok := isCall(e, "", "encodeLengthEncodedStrings"); ok && want == tErr && len(c.Args) == 2 {
+			// the loop over the parts is modelled (Sasl.encodeParts), not translated: the call is the
+			// parameter `enc` applied to the parts
+			if l, _, ok := t.partsList(c.Args[1]); ok {
+				t.usesEnc = true
+				return "(enc " + l + ")"
+			}
+		}
 		if c, ok := isCall(e, "", "len"); ok && want == tNat && len(c.Args) == 1 {
 			return "((" + t.expr(c.Args[0], tBytes) + ").length : Int)"
 		}
@@ -239,9 +324,15 @@ func (t *translator) expr(e ast.Expr, want trType) string {
 		if x.Op == token.NOT && want == tBool {
 			return "(!" + t.expr(x.X, tBool) + ")"
 		}
+		if _, ok := x.X.(*ast.CompositeLit); ok && x.Op == token.AND && want == tOpaque {
+			return "true" // &T{…}: a non-nil pointer
+		}
 	case *ast.BinaryExpr:
 		switch x.Op {
 		case token.ADD, token.SUB:
+			if x.Op == token.ADD && isBytesLike(want) {
+				return "(" + t.expr(x.X, tStr) + " ++ " + t.expr(x.Y, tStr) + ")"
+			}
 			if want == tNat {
 				op := map[token.Token]string{token.ADD: "+", token.SUB: "-"}[x.Op]
 				return "(" + t.expr(x.X, tNat) + " " + op + " " + t.expr(x.Y, tNat) + ")"
@@ -367,6 +458,36 @@ func (t *translator) stmts(list []ast.Stmt, ind string) string {
 		}
 		return true
 	}
+	// `if err := decodeLengthEncodedStrings(reader, parts); err != nil { … }`: the scanner loop is
+	// modelled (Sasl.decodeScan), not translated; the call is the parameter `dec` applied to the
+	// number of parts: `none` = it returned an error, `some ps` = it filled the slots with ps.
+	if x, ok := head.(*ast.IfStmt); ok && x.Else == nil {
+		if as, ok := x.Init.(*ast.AssignStmt); ok && as.Tok == token.DEFINE && len(as.Lhs) == 1 && len(as.Rhs) == 1 {
+			if c, ok := isCall(as.Rhs[0], "", "decodeLengthEncodedStrings"); ok && len(c.Args) == 2 {
+				errId, okId := as.Lhs[0].(*ast.Ident)
+				arr, okArr := c.Args[1].(*ast.Ident)
+				cond, okCond := x.Cond.(*ast.BinaryExpr)
+				size := 0
+				if okArr {
+					size, okArr = t.arrays[arr.Name]
+				}
+				if !okId || !okArr || !okCond || cond.Op != token.NEQ || exprString(cond.X) != errId.Name || exprString(cond.Y) != "nil" || !terminates(x.Body.List) {
+					return t.fail("decodeLengthEncodedStrings call outside the subset")
+				}
+				t.usesDec = true
+				saved := copyVars(t.vars)
+				t.vars[errId.Name] = tErr
+				bad := fmt.Sprintf("let %s : Bool := true\n%s  %s", leanIdent(errId.Name), ind, t.stmts(x.Body.List, ind+"  "))
+				t.vars = saved
+				good := ""
+				for k := 0; k < size; k++ {
+					good += fmt.Sprintf("let %s_%d : Bytes := ps.getD %d []\n%s  ", arr.Name, k, k, ind)
+				}
+				good += t.stmts(rest, ind+"  ")
+				return fmt.Sprintf("(match dec %d with\n%s| none =>\n%s  %s\n%s| some ps =>\n%s  %s)", size, ind, ind, bad, ind, ind, good)
+			}
+		}
+	}
 	switch x := head.(type) {
 	case *ast.IfStmt:
 		if as, ok := x.Init.(*ast.AssignStmt); ok && as.Tok == token.DEFINE && markInit(as) {
@@ -391,6 +512,7 @@ func (t *translator) stmts(list []ast.Stmt, ind string) string {
 				}
 				parts = append(parts, leanIdent(n))
 			}
+			parts = append(parts, t.outs...)
 			return "(" + strings.Join(parts, ", ") + ")"
 		}
 		if len(x.Results) != len(t.results) {
@@ -408,15 +530,52 @@ func (t *translator) stmts(list []ast.Stmt, ind string) string {
 				parts = append(parts, t.expr(r, t.results[i]))
 			}
 		}
+		parts = append(parts, t.outs...)
 		return "(" + strings.Join(parts, ", ") + ")"
 	case *ast.AssignStmt:
-		if x.Tok == token.ASSIGN && len(x.Lhs) == 1 && len(x.Rhs) == 1 {
-			// assignment to a local or a named result: the rest of the path sees the new value
-			if id, ok := x.Lhs[0].(*ast.Ident); ok {
-				if ty, ok := t.vars[id.Name]; ok && ty != tBytes {
+		if (x.Tok == token.ASSIGN || x.Tok == token.ADD_ASSIGN) && len(x.Lhs) == 1 && len(x.Rhs) == 1 {
+			// assignment to a local, a named result, a receiver field or an array slot: the rest of
+			// the path sees the new value
+			if n, ok := t.lvalue(x.Lhs[0]); ok {
+				if ty := t.vars[n]; ty != tBytes {
 					v := t.expr(x.Rhs[0], ty)
-					return fmt.Sprintf("let %s : %s := %s\n%s%s", leanIdent(id.Name), leanTy[ty], v, ind, t.stmts(rest, ind))
+					if x.Tok == token.ADD_ASSIGN {
+						switch {
+						case isBytesLike(ty):
+							v = "(" + leanIdent(n) + " ++ " + v + ")"
+						case ty == tNat:
+							v = "(" + leanIdent(n) + " + " + v + ")"
+						default:
+							return t.fail("+= at a type outside the subset")
+						}
+					}
+					return fmt.Sprintf("let %s : %s := %s\n%s%s", leanIdent(n), leanTy[ty], v, ind, t.stmts(rest, ind))
 				}
+			}
+		}
+		if x.Tok == token.DEFINE && len(x.Lhs) == 1 && len(x.Rhs) == 1 {
+			// parts := make([]string, N): N string slots, empty
+			if c, ok := isCall(x.Rhs[0], "", "make"); ok && len(c.Args) == 2 {
+				id, okId := x.Lhs[0].(*ast.Ident)
+				at, okAt := c.Args[0].(*ast.ArrayType)
+				n, okN := litInt(c.Args[1])
+				if okId && okAt && okN && at.Len == nil && exprString(at.Elt) == "string" && n > 0 && n <= 16 {
+					if _, dup := t.vars[id.Name]; dup || t.arrays[id.Name] != 0 {
+						return t.fail("redeclaration of %s", id.Name)
+					}
+					if t.arrays == nil {
+						t.arrays = map[string]int{}
+					}
+					t.arrays[id.Name] = n
+					out := ""
+					for k := 0; k < n; k++ {
+						slot := fmt.Sprintf("%s_%d", id.Name, k)
+						t.vars[slot] = tStr
+						out += fmt.Sprintf("let %s : Bytes := []\n%s", slot, ind)
+					}
+					return out + t.stmts(rest, ind)
+				}
+				return t.fail("make outside the subset")
 			}
 		}
 		if x.Tok == token.DEFINE && len(x.Lhs) == 2 && len(x.Rhs) == 1 {
@@ -576,19 +735,124 @@ func (t *translator) stmts(list []ast.Stmt, ind string) string {
 
 // translateFunc finds the function and produces a Lean definition `name` of type
 // Option (params → results as a tuple).
-func translateFunc(f *ast.File, fset *token.FileSet, name, leanName, failType string, consts map[string]int, sconsts map[string]string) string {
-	var fd *ast.FuncDecl
+// fileStructs: the struct types of the file, with the fields whose types are in the subset.
+func fileStructs(f *ast.File) map[string][]structField {
+	out := map[string][]structField{}
 	for _, d := range f.Decls {
-		if x, ok := d.(*ast.FuncDecl); ok && x.Name.Name == name && x.Recv == nil {
-			fd = x
+		gd, ok := d.(*ast.GenDecl)
+		if !ok || gd.Tok != token.TYPE {
+			continue
+		}
+		for _, sp := range gd.Specs {
+			ts := sp.(*ast.TypeSpec)
+			st, ok := ts.Type.(*ast.StructType)
+			if !ok {
+				continue
+			}
+			var fs []structField
+			for _, fl := range st.Fields.List {
+				ty, ok := goType(fl.Type)
+				if !ok {
+					continue
+				}
+				for _, n := range fl.Names {
+					fs = append(fs, structField{n.Name, ty})
+				}
+			}
+			out[ts.Name.Name] = fs
 		}
 	}
-	t := &translator{consts: consts, sconsts: sconsts, vars: map[string]trType{}}
+	return out
+}
+
+// pointerTo: `*T` for a struct type T of the file.
+func (t *translator) pointerTo(e ast.Expr) (string, bool) {
+	st, ok := e.(*ast.StarExpr)
+	if !ok {
+		return "", false
+	}
+	id, ok := st.X.(*ast.Ident)
+	if !ok {
+		return "", false
+	}
+	_, ok = t.structs[id.Name]
+	return id.Name, ok
+}
+
+// translateFunc finds the function (or, with recv != "", the method of *recv) and produces a Lean
+// definition `leanName` of type Option (params → results as a tuple). Parameter order: `enc` / `dec`
+// (when the body calls the part encoder / decoder), the fields of the receiver, the parameters
+// (a pointer to a struct of the file contributes its fields; io.Reader / io.Writer contribute
+// nothing). Results: the declared ones, then the receiver fields the body assigns.
+func translateFunc(f *ast.File, fset *token.FileSet, name, leanName, failType string, consts map[string]int, sconsts map[string]string) string {
+	return translateMethod(f, fset, "", name, leanName, failType, consts, sconsts)
+}
+
+func translateMethod(f *ast.File, fset *token.FileSet, recv, name, leanName, failType string, consts map[string]int, sconsts map[string]string) string {
+	var fd *ast.FuncDecl
+	for _, d := range f.Decls {
+		x, ok := d.(*ast.FuncDecl)
+		if !ok || x.Name.Name != name {
+			continue
+		}
+		if recv == "" && x.Recv == nil {
+			fd = x
+		}
+		if recv != "" && x.Recv != nil && len(x.Recv.List) == 1 {
+			if st, ok := x.Recv.List[0].Type.(*ast.StarExpr); ok && exprString(st.X) == recv {
+				fd = x
+			}
+		}
+	}
+	t := &translator{consts: consts, sconsts: sconsts, vars: map[string]trType{}, structs: fileStructs(f), structVars: map[string]string{}}
 	var params, ptypes, rtypes []string
+	addStruct := func(v, ty string) {
+		t.structVars[v] = ty
+		for _, fl := range t.structs[ty] {
+			n := v + "_" + fl.name
+			t.vars[n] = fl.ty
+			params = append(params, leanIdent(n))
+			ptypes = append(ptypes, leanTy[fl.ty])
+		}
+	}
 	if fd == nil {
 		t.fail("function %s not found", name)
 	} else {
+		if recv != "" {
+			if len(fd.Recv.List[0].Names) != 1 {
+				t.fail("unnamed receiver")
+			} else {
+				rv := fd.Recv.List[0].Names[0].Name
+				addStruct(rv, recv)
+				// receiver fields the body assigns are results as well
+				assigned := map[string]bool{}
+				ast.Inspect(fd.Body, func(n ast.Node) bool {
+					if as, ok := n.(*ast.AssignStmt); ok {
+						for _, l := range as.Lhs {
+							if sel, ok := l.(*ast.SelectorExpr); ok && exprString(sel.X) == rv {
+								assigned[sel.Sel.Name] = true
+							}
+						}
+					}
+					return true
+				})
+				for _, fl := range t.structs[recv] {
+					if assigned[fl.name] {
+						t.outs = append(t.outs, leanIdent(rv+"_"+fl.name))
+					}
+				}
+			}
+		}
 		for _, p := range fd.Type.Params.List {
+			if sn, ok := t.pointerTo(p.Type); ok {
+				for _, n := range p.Names {
+					addStruct(n.Name, sn)
+				}
+				continue
+			}
+			if s := exprString(p.Type); s == "io.Reader" || s == "io.Writer" {
+				continue // reached only through the part decoder / encoder (`dec` / `enc`)
+			}
 			ty, ok := goType(p.Type)
 			if !ok {
 				t.fail("parameter type outside the subset")
@@ -602,6 +866,9 @@ func translateFunc(f *ast.File, fset *token.FileSet, name, leanName, failType st
 		if fd.Type.Results != nil {
 			for _, r := range fd.Type.Results.List {
 				ty, ok := goType(r.Type)
+				if _, isPtr := t.pointerTo(r.Type); isPtr {
+					ty, ok = tOpaque, true
+				}
 				if !ok {
 					t.fail("result type outside the subset")
 				}
@@ -621,6 +888,9 @@ func translateFunc(f *ast.File, fset *token.FileSet, name, leanName, failType st
 				}
 			}
 		}
+		for _, o := range t.outs {
+			rtypes = append(rtypes, leanTy[t.vars[strings.Trim(o, "«»")]])
+		}
 	}
 	body := ""
 	if t.err == "" {
@@ -630,7 +900,7 @@ func translateFunc(f *ast.File, fset *token.FileSet, name, leanName, failType st
 			if n == "" {
 				continue
 			}
-			zero := map[trType]string{tNat: "(0 : Int)", tBool: "false", tErr: "false", tStr: "[]"}[t.results[i]]
+			zero := map[trType]string{tNat: "(0 : Int)", tBool: "false", tErr: "false", tStr: "[]", tOpaque: "false"}[t.results[i]]
 			if t.results[i] == tBytes {
 				continue // usable in explicit returns only (nil vs slice is not tracked through variables)
 			}
@@ -646,7 +916,18 @@ func translateFunc(f *ast.File, fset *token.FileSet, name, leanName, failType st
 		fmt.Fprintf(&w, "def %s : Option (%s) := none\n", leanName, failType)
 		return w.String()
 	}
+	if t.usesDec {
+		params = append([]string{"dec"}, params...)
+		ptypes = append([]string{"(Nat → Option (List Bytes))"}, ptypes...)
+	}
+	if t.usesEnc {
+		params = append([]string{"enc"}, params...)
+		ptypes = append([]string{"(List Bytes → Bool)"}, ptypes...)
+	}
 	pos := fset.Position(fd.Pos())
+	if recv != "" {
+		name = "(*" + recv + ")." + name
+	}
 	fmt.Fprintf(&w, "/-- Translation of `%s` (%s:%d), statement by statement. -/\n", name, shortPath(pos.Filename), pos.Line)
 	fmt.Fprintf(&w, "def %s : Option (%s → %s) := some fun %s =>\n    %s\n", leanName,
 		strings.Join(ptypes, " → "), strings.Join(rtypes, " × "), strings.Join(params, " "), body)
